@@ -483,9 +483,16 @@ class Gen(object):
             nm = rng.choice(['get', 'set', 'do', 'has', 'to', 'from', 'is']) + '_' + rng.choice(['x', 'y', 'name', 'z', 'a', 'B'.lower()]) + str(i)
             fns.append({'d': 'function', 'name': '%s_%s' % (sym, nm), 'ret': T('int'),
                         'params': [{'name': 'self', 'type': P(T(ctype))}, {'name': 'v', 'type': T('int')}]})
-        for i in range(rng.choice([0, 1, 2])):
+        # a record / union registered as a boxed type (the dump knows it): only then do `*_new*`
+        # functions become its constructors
+        boxed = shape != 'anon' and rng.random() < 0.35
+        for i in range(rng.choice([2, 3]) if boxed else rng.choice([0, 1, 2])):
             fns.append({'d': 'function', 'name': '%s_new%s' % (sym, '' if i == 0 else '_with_%d' % i),
                         'ret': P(T(ctype)), 'params': [] if i == 0 else [{'name': 'n', 'type': T('int')}]})
+        if boxed:
+            fns.append({'d': 'function', 'name': sym + '_get_type', 'ret': T('GType'), 'params': []})
+            self.dump.append({'tag': 'boxed', 'name': ctype, 'get_type': sym + '_get_type'})
+            self.features.add('registered:boxed-%s' % kind)
         for i in range(rng.choice([0, 1, 2])):
             fns.append({'d': 'function', 'name': '%s_static%d' % (sym, i), 'ret': T('void'),
                         'params': [{'name': 'n', 'type': T('int')}]})
@@ -532,6 +539,59 @@ class Gen(object):
         if rng.random() < 0.4:
             self.comment('SECTION:' + snake(self.word()), 'A section.')
             self.features.add('section')
+
+    def add_registered(self):
+        """types known through the runtime dump whose children the writer sorts, with SEVERAL children
+        of each sorted kind, declared in an order that is not the order of their names: GType-registered
+        enumerations and flags with paired static functions (`_pair_static_method` appends them in the
+        order the C functions are met), a boxed type without a C structure (<glib:boxed>) with
+        constructors / methods / static functions."""
+        rng = self.rng
+        helpers = ['to_string', 'from_string', 'all', 'zero', 'b1', 'a_first', 'Z2'.lower(), 'get_nick', 'mask']
+        for flags in rng.sample([False, True, rng.random() < 0.5], rng.choice([0, 1, 2, 2, 3])):
+            w = self.word()
+            ctype = 'Foo' + w + ('Flags' if flags else 'Mode')
+            sym = 'foo_' + snake(w) + ('_flags' if flags else '_mode')
+            up = sym.upper()
+            names = rng.sample(['READ', 'WRITE', 'EXEC', 'A', 'Z'], rng.randint(1, 4))
+            members = [{'name': '%s_%s' % (up, n), 'value': (1 << i) if flags else i} for i, n in enumerate(names)]
+            f0 = rng.choice(FILES)
+            self.add({'d': 'typedef', 'name': ctype, 'type': {'k': 'enum', 'n': None, 'members': members, 'bitfield': flags}}, f0)
+            self.add({'d': 'function', 'name': sym + '_get_type', 'ret': T('GType'), 'params': []}, f0)
+            hs = rng.sample(helpers, rng.choice([2, 2, 3, 4, 6]))
+            for h in hs:                      # in sample order (not name order), over several headers
+                if h.startswith(('to_', 'get_')):
+                    fn = {'d': 'function', 'name': '%s_%s' % (sym, h), 'ret': T('int'), 'params': [{'name': 'v', 'type': T(ctype)}]}
+                elif h == 'from_string':
+                    fn = {'d': 'function', 'name': '%s_%s' % (sym, h), 'ret': T(ctype), 'params': [{'name': 'id', 'type': T('int')}]}
+                else:
+                    fn = {'d': 'function', 'name': '%s_%s' % (sym, h), 'ret': T(ctype), 'params': []}
+                self.add(fn, rng.choice([f0, rng.choice(FILES)]))
+                if rng.random() < 0.3:
+                    self.comment(fn['name'], 'Helper %s.' % h, [(p['name'], 'a value') for p in fn['params']], ret='a value')
+            self.dump.append({'tag': 'flags' if flags else 'enum', 'name': ctype, 'get_type': sym + '_get_type',
+                              'members': [{'name': m_['name'], 'nick': n.lower(), 'value': m_['value']}
+                                          for m_, n in zip(members, names)]})
+            self.features.add('registered:%s(%d static functions)' % ('flags' if flags else 'enum', min(len(hs), 4)))
+        if rng.random() < 0.4:
+            # a boxed type the scanner sees only in the dump
+            w = self.word()
+            ctype = 'Foo' + w + 'Box'
+            sym = 'foo_' + snake(w) + '_box'
+            self.add({'d': 'function', 'name': sym + '_get_type', 'ret': T('GType'), 'params': []})
+            fns = []
+            for h in rng.sample(['new', 'new_empty', 'new_from_x'], rng.choice([2, 3])):
+                fns.append({'d': 'function', 'name': '%s_%s' % (sym, h), 'ret': P(T(ctype)), 'params': []})
+            for h in rng.sample(['copy', 'free', 'is_b', 'a_get', 'zz'], rng.choice([2, 3, 4])):
+                fns.append({'d': 'function', 'name': '%s_%s' % (sym, h), 'ret': T('void'),
+                            'params': [{'name': 'self', 'type': P(T(ctype))}]})
+            for h in rng.sample(['registry', 'count', 'a_static', 'Z'.lower() + '_static'], rng.choice([2, 3])):
+                fns.append({'d': 'function', 'name': '%s_%s' % (sym, h), 'ret': T('int'), 'params': []})
+            rng.shuffle(fns)
+            for fn in fns:
+                self.add(fn)
+            self.dump.append({'tag': 'boxed', 'name': ctype, 'get_type': sym + '_get_type'})
+            self.features.add('registered:boxed')
 
     def add_alias_chains(self):
         """typedef chains (alias of alias of ... of a root) with the callables using them, written in
@@ -683,6 +743,9 @@ class Gen(object):
             for i in range(rng.choice([0, 1, 2])):
                 parts.append({'d': 'function', 'name': '%s_new%s' % (sym, '' if i == 0 else '_named'),
                               'ret': P(T(ctype)), 'params': []})
+        # static functions of the class / interface (no instance parameter)
+        for st in rng.sample(['registry', 'count', 'a_static', 'zz_static', 'default_mode'], rng.choice([0, 2, 3])):
+            parts.append({'d': 'function', 'name': '%s_%s' % (sym, st), 'ret': T('int'), 'params': [{'name': 'n', 'type': T('int')}]})
         rng.shuffle(parts)
         # keep typedef/struct pairs registered for the tag-order permutation
         for prt in parts:
@@ -774,6 +837,7 @@ def gen_input(rng, rich=None):
     for _ in range(rng.choice([1, 2, 3, 5])):
         g.add_compound()
     g.add_misc()
+    g.add_registered()
     g.add_alias_chains()
     for _ in range(rng.choice([0, 1, 1, 2, 3])):
         g.add_class(iface=rng.random() < 0.3)
@@ -814,6 +878,8 @@ def render_dump(items):
         if it.get('parents') is not None:
             head += ' parents=%s' % quoteattr(it['parents'])
         o.append(head + '>\n')
+        for mb in it.get('members', []):
+            o.append('    <member name=%s nick=%s value="%d"/>\n' % (quoteattr(mb['name']), quoteattr(mb['nick']), mb['value']))
         for i in it.get('implements', []):
             o.append('    <implements name=%s/>\n' % quoteattr(i))
         for i in it.get('prereqs', []):
@@ -1766,6 +1832,14 @@ def metamorphic(ctx, cnt, pool, inputs, seeds, nperm, rng, samples):
             base_out = 'RAISED ' + base['error'].split(':')[0]
         else:
             base_out = base['gir']
+            # which sorted containers really had something to sort
+            for t_, _n, kids_ in signature(base_out)[1]:
+                per = {}
+                for kt_, _kn in kids_:
+                    per[kt_] = per.get(kt_, 0) + 1
+                for kt_, c_ in per.items():
+                    if c_ >= 2 and kt_ in SORTED_TAGS:
+                        cnt.hit('siblings>=2:%s/%s' % (t_, kt_))
             for c in statement_oracle(base_out, precedence)[:3]:
                 ctx.report_failure('sibling-order:%s:%s' % (key, c[:80]),
                                    'output of %s violates "sibling order is a fixed function of names and kinds": %s' % (key, c),
@@ -1948,7 +2022,10 @@ def run(ctx):
                 'read off the real objects) on namespaces in declared / shuffled / reversed declaration order. Metamorphic stream (validated, not proved): corpus + seeded inputs (compounds '
                 'in all typedef/struct orders incl. tags seen at several positions, two typedefs of a tag, methods/ctors/'
                 'functions, enums, aliases, constants, callbacks, classes and interfaces with properties/signals/interfaces '
-                'from a dump, comment blocks in several files, dependency GIR DAGs, a dependency GIR with a node of every '
+                'from a dump, GType-registered enumerations and flags with 2-6 paired static functions declared out of name '
+                'order over several headers, boxed-registered records / unions with several constructors, a dump-only boxed '
+                'type, static functions of classes and interfaces (every container kind gets >= 2 children of every sorted '
+                'kind: distribution siblings>=2:*), comment blocks in several files, dependency GIR DAGs, a dependency GIR with a node of every '
                 'kind (alias, bitfield, enumeration, callback, class, interface, record, union, glib:boxed, constant, '
                 'function, function-macro, docsection; introspectable=0 / disguised / pointer / foreign / fundamental '
                 'flavours) used by value, by pointer, as callback, as parent class and interface, alias chains up to 4 deep '
